@@ -212,7 +212,7 @@ def judge(case, stats=None):
 @st.composite
 def cases(draw):
   sl = draw(st.sampled_from([0, 1, 1, 2, 3]))
-  design = draw(rtl_gen.designs(max_depth=0, max_steps=4, ff=False, sloppy=sl, wide=draw(st.integers(0, 3)) == 0))
+  design = draw(rtl_gen.designs(max_depth=0, max_steps=4, ff=False, sloppy=sl, lambdas=False, wide=draw(st.integers(0, 3)) == 0))
   seq = draw(rtl_gen.input_seqs(design, ncycles=3))
   return {"design": design, "seq": seq, "sloppy": sl}
 
